@@ -11,7 +11,8 @@ for p in sorted(glob.glob(os.path.join(V, "seeded", "C*", "*", "meta.json"))):
 
 
 def rnd(m):
-    return 4 if m["_name"].startswith("r4-") else 3 if m["_name"].startswith("r3-") else 2 if m["_name"].startswith("r2-") else 1
+    mm = re.match(r"r(\d+)-", m["_name"])
+    return int(mm.group(1)) if mm else 1
 
 
 def first_missed(m):
@@ -63,8 +64,12 @@ out.append("""### 10.4 Seeded breaking changes: which check catches which change
 Method.  For every property a fresh sub-agent was given only the property's text and its own scratch worktree of /repo (nothing from /verif)
 and asked for small, realistic changes that break the property while the pinned suite still gives the baseline summary: round 1 two per
 property, round 2 three per property (rarely used parameters, multi-step histories, second code paths), round 3 three per property (other
-source files and classes than before, interactions of two constructs, the build and error paths, helper code in construct/lib); rounds 2 and 3
-were told one-line summaries of the earlier changes so as not to repeat them.  `tools/harvest_seeded.sh` confirmed each one on a scratch
+source files and classes than before, interactions of two constructs, the build and error paths, helper code in construct/lib), round 4 three
+per property (multi-step histories, two cooperating edit sites, rarely used parameters with unusual inputs), round 5 three per property (unusual
+nesting orders and re-entrant use, boundary parameter values, unusual value and input types, behaviours the documentation states explicitly that
+had not been attacked yet), round 6 three per property (changes dressed as improvements: performance optimisations - caches, fast paths,
+hoisted or removed re-evaluations; refactorings - merged code paths, shared helpers, loops turned into slices or library calls; modernisation and
+robustness tweaks - type checks, truthiness, exception types, extra validation); from round 2 on the agents were told one-line summaries of the earlier changes so as not to repeat them.  `tools/harvest_seeded.sh` confirmed each one on a scratch
 worktree (patch applies to the current HEAD, pinned suite summary unchanged, the agent's demonstration passes without and fails with the patch),
 then ran the property's quick check against /repo with the patch applied (`git -C /repo apply`, reverted straight afterwards) and recorded the
 outcome in `/verif/seeded/<ID>/<name>/meta.json` next to `patch.diff` and `demo.py`.  Nothing of this was ever committed to /repo; the
@@ -79,7 +84,8 @@ for r in sorted(per_round):
 out.append("""
 Every miss led to a widening of the check (never to a loosening); `tools/recheck_seeded.py [--seeds 1,2,3] all` re-runs every stored change
 against the current checks, and the unchanged tree is swept over several seeds afterwards (`tools/sweep.sh`).  Two stored changes stopped being
-property-breaking when the genuine defect they depended on was repaired (e073995); they are kept and marked.  The full table with the
+property-breaking when the genuine defect they depended on was repaired (e073995); they are kept and marked.  Changes whose lines were rewritten
+by a later `fix:` commit are re-made by hand on the new lines and re-confirmed (`rebased_onto` in meta.json, `patch.orig.diff` keeps the original).  The full table with the
 mechanisms reported is `/verif/seeded/README.md`.
 
 What the misses changed in the checks (by property, round in brackets):
@@ -103,7 +109,10 @@ that performs a read against the member whose byte extent contains the offset; (
 arguments (Pointer stream=, NullTerminated include/consume/require, Compressed level 0, enum classes with aliases, Select alternatives that fail
 late, callables instead of this-expressions, collections that are not lists, mixed positional/keyword members) are enumerated deliberately; (6)
 detection that depends on the seed is weak detection: stored changes are re-run over several seeds; (7) widening a check for a seeded change
-found genuine defects next to it (95ca5cf, e073995).
+found genuine defects next to it (95ca5cf, e073995, 2659739, 6197bc4); (8) an INCONCLUSIVE exit under a seeded change is a miss, not a
+catch - where the harness itself dies on the changed behaviour (calling an accessor it assumed to work) or an anchor silently disappears, the
+check was changed to observe that behaviour and report it; (9) boundary parameter values (size 0, empty key, empty region, exact multiples) and
+values of the library's own result types are enumerated deliberately - random generation does not drift there.
 
 | property | change | what was changed | result | first mechanism reported |
 |---|---|---|---|---|""")
